@@ -63,7 +63,16 @@ P.update({
              note="Crash model: completed operations + prefix of the interrupted one, in program order.", ref="4/C12"),
 })
 
-IMPLEMENTED = ["C01","C02","C03","C04","C05","C06","C07","C08","C09","C10","C11","C12","C13","C14","C15","C16","C18","C20"]
+P.update({
+ "C17": dict(tech="round-trip monitors: generated JSON values -> stringify -> own parser + strict RFC 8259 reference parser + serde_json; generated TileJSON documents -> 4 container writers -> readers; served tiles.json over HTTP from the real binary; Miri flavour in thorough",
+             text="Runtime monitoring: (a) JSON values with strings and keys over all of Unicode (control characters, quotes, backslashes, U+2028/9, non-BMP), extreme finite numbers and nesting to depth 64 must satisfy parse(stringify(v)) == v and be read with the same meaning by a strict RFC 8259 parser (and serde_json); (b) TileJSON documents expressible by the model, written into versatiles / pmtiles / tar / directory containers, must come back unchanged except for narrowed bounds / zoom range; (c) served tiles.json must be valid JSON carrying the metadata, the tiles template and bounds / zooms never wider than the coverage.",
+             note="serde_json lacks float_roundtrip: numbers beyond 1e290 are checked with the harness's strict parser only. Server-owned keys: tiles, type, name, format, bounds, minzoom, maxzoom, tilejson.", ref="4/C17"),
+ "C19": dict(tech="guarded-execution fuzz monitor: mutation + random + structured adversarial inputs into 12 decoding entry points, in sharded child processes with panic capture, abort attribution, a counting global allocator and a 2 MiB stack; ASan and release flavours in thorough",
+             text="Runtime monitoring: ~10^5 inputs per quick run (random bytes, 1..4 stacked mutations of valid encodings incl. length / offset field corruption and multi-byte UTF-8 insertion, semantic SQL / member-name / directory-entry corruptions, self-referencing PMTiles leaf directories, announced lengths up to 2^63, nesting depth 256) are fed to parse_json_str, TileJSON::try_from, read_csv_iter, parse_vpl, PipelineFactory::operation_from_vpl (+ CSV data file), VectorTile::from_blob, and the five container readers (open + single-tile lookups). Oracle: Ok or Err — never a panic, an abort / stack overflow of the child, or a single allocation request / peak growth above 1 GiB.",
+             note="A batch exceeding its 30 s watchdog is killed, counted and excluded (CPU time is not part of the statement). Signatures: entry | file | hash of the source line | message class.", ref="4/C19"),
+})
+
+IMPLEMENTED = ["C01","C02","C03","C04","C05","C06","C07","C08","C09","C10","C11","C12","C13","C14","C15","C16","C17","C18","C19","C20"]
 NOT_YET = {}
 
 def main():
